@@ -529,10 +529,16 @@ impl Drop for RecvStream {
         }
         let mut conn = self.conn.state.lock("RecvStream::drop");
 
-        // clean up any previously registered wakers
-        conn.blocked_readers.remove(&self.stream);
+        // After a 0-RTT rejection stream numbering starts over: what is registered under this
+        // handle's number may belong to a live stream opened since
+        let stale = self.is_0rtt && conn.check_0rtt().is_err();
 
-        if conn.error.is_some() || (self.is_0rtt && conn.check_0rtt().is_err()) {
+        // clean up any previously registered wakers
+        if !stale {
+            conn.blocked_readers.remove(&self.stream);
+        }
+
+        if conn.error.is_some() || stale {
             return;
         }
 
